@@ -46,14 +46,23 @@ VARIABLES l,
           caps,     \* capabilities created so far
           lres,     \* set of <<tag, kind>>: local call results
           pret,     \* set of <<question id, kind, tag>>: peer returns received
-          closed, aborted
-vars == <<l, ans, exp, qst, qtag, qrel, imp, lh, started, callseq, appret, shut, caps, lres, pret, closed, aborted>>
+          closed, aborted,
+          emb       \* embargo bookkeeping (see the section "ordering across promise resolution")
+vars == <<l, ans, exp, qst, qtag, qrel, imp, lh, started, callseq, appret, shut, caps, lres, pret, closed, aborted, emb>>
 
-FreeAns == [st |-> "free", kind |-> "", tag |-> 0 - 1, cap |-> "", exps |-> <<>>, fin |-> FALSE, rel |-> FALSE]
+FreeAns == [st |-> "free", kind |-> "", tag |-> 0 - 1, cap |-> "", exps |-> <<>>, fin |-> FALSE, rel |-> FALSE, imp |-> 0 - 1]
+\* emb: lseq    local pipelined calls in issue order, <<tag of the call they are pipelined on, tag>>
+\*      out     embargoes the connection announced (Disembargo senderLoopback sent, echo not yet received): <<embargo id, stream tag>>
+\*      held    tags of local calls made while their stream was under embargo (must not be delivered before the echo)
+\*      ptgt    received calls addressed to a promised answer: <<tag, answer id>>
+\*      fwd     tags of received calls the connection forwarded to an import, in send order
+\*      fwdres  what the peer answered to forwarded calls: <<tag, kind, result tag>>
+\*      req     Disembargo senderLoopback received and not yet echoed: <<embargo id, answer id, tags that must be forwarded first>>
+FreeEmb == [lseq |-> <<>>, out |-> {}, held |-> {}, ptgt |-> {}, fwd |-> <<>>, fwdres |-> {}, req |-> {}]
 Fresh == /\ ans = [i \in Ids |-> FreeAns] /\ exp = [i \in Ids |-> [cap |-> "", wire |-> 0]]
          /\ qst = [i \in Ids |-> "free"] /\ qtag = [i \in Ids |-> 0 - 1] /\ qrel = [i \in Ids |-> FALSE] /\ imp = [i \in Ids |-> 0] /\ lh = {}
          /\ started = <<>> /\ callseq = <<>> /\ appret = {} /\ shut = <<>> /\ caps = {"B"} /\ lres = {} /\ pret = {}
-         /\ closed = FALSE /\ aborted = FALSE
+         /\ closed = FALSE /\ aborted = FALSE /\ emb = FreeEmb
 Init == l = 1 /\ Fresh
 
 E == Tr[l]
@@ -62,6 +71,7 @@ Msg(d, m) == Ev("msg") /\ E.dir = d /\ E.m = m
 Consume == l' = l + 1
 Range(s) == { s[i] : i \in 1..Len(s) }
 Count(s, x) == Cardinality({ i \in 1..Len(s) : s[i] = x })
+Pos(s, x) == CHOOSE i \in 1..Len(s) : s[i] = x
 SenderHosted(cs) == { cs[i][2] : i \in { j \in 1..Len(cs) : cs[j][1] \in {"senderHosted", "senderPromise"} } }
 ExpSeq(cs) == SelectSeq(cs, LAMBDA d : d[1] \in {"senderHosted", "senderPromise"})
 
@@ -76,16 +86,17 @@ Reset == /\ Ev("reset") /\ Consume
          /\ ans' = [i \in Ids |-> FreeAns] /\ exp' = [i \in Ids |-> [cap |-> "", wire |-> 0]]
          /\ qst' = [i \in Ids |-> "free"] /\ qtag' = [i \in Ids |-> 0 - 1] /\ qrel' = [i \in Ids |-> FALSE] /\ imp' = [i \in Ids |-> 0] /\ lh' = {}
          /\ started' = <<>> /\ callseq' = <<>> /\ appret' = {} /\ shut' = <<>> /\ caps' = {"B"} /\ lres' = {} /\ pret' = {}
-         /\ closed' = FALSE /\ aborted' = FALSE
+         /\ closed' = FALSE /\ aborted' = FALSE /\ emb' = FreeEmb
 
 \* ---------------- peer -> connection ----------------
 RecvBootstrap == /\ Msg("recv", "bootstrap") /\ Consume
                  /\ ans' = [ans EXCEPT ![E.q] = [FreeAns EXCEPT !.st = "open", !.kind = "bootstrap"]]
-                 /\ Keep(<<exp, qst, qtag, qrel, imp, lh, started, callseq, appret, shut, caps, lres, pret, closed, aborted>>)
+                 /\ Keep(<<exp, qst, qtag, qrel, imp, lh, started, callseq, appret, shut, caps, lres, pret, closed, aborted, emb>>)
 RecvCall == /\ Msg("recv", "call") /\ Consume
             /\ ans' = [ans EXCEPT ![E.q] = [FreeAns EXCEPT !.st = "open", !.kind = "call", !.tag = E.tag]]
             /\ callseq' = Append(callseq, E.tag)
             /\ imp' = [i \in Ids |-> imp[i] + Count([j \in 1..Len(E.caps) |-> IF E.caps[j][1] \in {"senderHosted", "senderPromise"} THEN E.caps[j][2] ELSE 0 - 1], i)]
+            /\ emb' = IF E.tgt = "ans" THEN [emb EXCEPT !.ptgt = @ \cup {<<E.tag, E.on>>}] ELSE emb
             /\ Keep(<<exp, qst, qtag, qrel, lh, started, appret, shut, caps, lres, pret, closed, aborted>>)
 \* Finish: the answer's result table is dropped; with releaseResultCaps the exports it carried lose those references
 RecvFinish == /\ Msg("recv", "finish") /\ Consume
@@ -97,10 +108,10 @@ RecvFinish == /\ Msg("recv", "finish") /\ Consume
                                                      ELSE [exp[i] EXCEPT !.wire = @ - Count(a.exps, i)])
                                                ELSE exp[i]]
                            ELSE exp
-              /\ Keep(<<qst, qtag, qrel, imp, lh, started, callseq, appret, shut, caps, lres, pret, closed, aborted>>)
+              /\ Keep(<<qst, qtag, qrel, imp, lh, started, callseq, appret, shut, caps, lres, pret, closed, aborted, emb>>)
 RecvRelease == /\ Msg("recv", "release") /\ Consume
                /\ exp' = [exp EXCEPT ![E.e].wire = IF @ - E.n < 0 THEN 0 ELSE @ - E.n]
-               /\ Keep(<<ans, qst, qtag, qrel, imp, lh, started, callseq, appret, shut, caps, lres, pret, closed, aborted>>)
+               /\ Keep(<<ans, qst, qtag, qrel, imp, lh, started, callseq, appret, shut, caps, lres, pret, closed, aborted, emb>>)
 \* the peer answers a question of the connection
 RecvReturn == /\ Msg("recv", "return") /\ Consume
               /\ qst[E.q] \in {"open", "canceled"}
@@ -109,9 +120,22 @@ RecvReturn == /\ Msg("recv", "return") /\ Consume
               \* capabilities in a Return that answers a question cancelled with releaseResultCaps are released by the peer itself
               /\ imp' = IF qst[E.q] = "canceled" /\ qrel[E.q] THEN imp
                          ELSE [i \in Ids |-> imp[i] + Count([j \in 1..Len(E.caps) |-> IF E.caps[j][1] \in {"senderHosted", "senderPromise"} THEN E.caps[j][2] ELSE 0 - 1], i)]
+              /\ emb' = IF qtag[E.q] \in Range(emb.fwd) THEN [emb EXCEPT !.fwdres = @ \cup {<<qtag[E.q], E.kind, E.tag>>}] ELSE emb
               /\ Keep(<<ans, exp, qtag, qrel, lh, started, callseq, appret, shut, caps, lres, closed, aborted>>)
-RecvOther == /\ Ev("msg") /\ E.dir = "recv" /\ E.m \notin {"bootstrap", "call", "finish", "release", "return"} /\ Consume
-             /\ Keep(<<ans, exp, qst, qtag, qrel, imp, lh, started, callseq, appret, shut, caps, lres, pret, closed, aborted>>)
+\* Disembargo from the peer.  senderLoopback: the peer asks for the echo behind everything pipelined on that answer so far.
+\* receiverLoopback: the echo of an embargo the connection announced - the embargo is over.
+RecvDisembargo ==
+  /\ Msg("recv", "disembargo") /\ Consume
+  /\ IF E.kind = "senderLoopback"
+     THEN emb' = [emb EXCEPT !.req = @ \cup {<<E.n, E.on, { x[1] : x \in { y \in emb.ptgt : y[2] = E.on } }>>}]
+     ELSE emb' = [emb EXCEPT !.out = { x \in @ : x[1] # E.n },
+                             !.held = IF \E x \in emb.out : x[1] = E.n
+                                      THEN LET st == (CHOOSE x \in emb.out : x[1] = E.n)[2] IN
+                                           { t \in @ : ~\E i \in 1..Len(emb.lseq) : emb.lseq[i] = <<st, t>> }
+                                      ELSE @]
+  /\ Keep(<<ans, exp, qst, qtag, qrel, imp, lh, started, callseq, appret, shut, caps, lres, pret, closed, aborted>>)
+RecvOther == /\ Ev("msg") /\ E.dir = "recv" /\ E.m \notin {"bootstrap", "call", "finish", "release", "return", "disembargo"} /\ Consume
+             /\ Keep(<<ans, exp, qst, qtag, qrel, imp, lh, started, callseq, appret, shut, caps, lres, pret, closed, aborted, emb>>)
 
 \* ---------------- connection -> peer ----------------
 \* Return: exactly one per answer, carrying its id, with the result the method body produced
@@ -136,88 +160,138 @@ SendReturn ==
                         /\ exp' = [exp EXCEPT ![x] = [cap |-> r[3], wire |-> (IF exp[x].cap = r[3] THEN exp[x].wire ELSE 0) + (IF a.fin /\ a.rel THEN 0 ELSE 1)]]
                         /\ ans' = [ans EXCEPT ![E.q].st = "returned", ![E.q].cap = r[3], ![E.q].exps = <<x>>]
                 ELSE /\ Len(ExpSeq(E.caps)) = 0
+                     \* a result that is a capability of the peer goes back as receiverHosted with its import id
+                     /\ (r[2] = "ok" /\ r[4] >= 0 => E.caps = << <<"receiverHosted", r[4]>> >>)
                      /\ exp' = exp
-                     /\ ans' = [ans EXCEPT ![E.q].st = "returned"]
-  /\ Keep(<<qst, qtag, qrel, imp, lh, started, callseq, appret, shut, caps, lres, pret, closed, aborted>>)
+                     /\ ans' = [ans EXCEPT ![E.q].st = "returned", ![E.q].imp = IF r[2] = "ok" THEN r[4] ELSE 0 - 1]
+  /\ Keep(<<qst, qtag, qrel, imp, lh, started, callseq, appret, shut, caps, lres, pret, closed, aborted, emb>>)
 \* an exception Return for a call that never reached a method body (unknown target, failed pipelined target ...)
 SendReturnNoBody ==
   /\ Msg("send", "return") /\ Consume
   /\ ans[E.q].st = "open" /\ ans[E.q].kind = "call" /\ E.kind = "exception"
   /\ ~\E s \in Range(started) : s[2] = ans[E.q].tag
   /\ ans' = [ans EXCEPT ![E.q].st = "returned"]
+  /\ UNCHANGED emb
   /\ Keep(<<exp, qst, qtag, qrel, imp, lh, started, callseq, appret, shut, caps, lres, pret, closed, aborted>>)
+\* the Return of a call that was forwarded to a capability of the peer carries what the peer answered
+SendReturnForwarded ==
+  /\ Msg("send", "return") /\ Consume
+  /\ ans[E.q].st = "open" /\ ans[E.q].kind = "call" /\ ans[E.q].tag \in Range(emb.fwd)
+  /\ \E r \in emb.fwdres : /\ r[1] = ans[E.q].tag
+                            /\ \/ r[2] = "results" /\ E.kind = "results" /\ E.tag = r[3]
+                               \/ r[2] = "exception" /\ E.kind = "exception"
+  /\ ans' = [ans EXCEPT ![E.q].st = "returned"]
+  /\ Keep(<<exp, qst, qtag, qrel, imp, lh, started, callseq, appret, shut, caps, lres, pret, closed, aborted, emb>>)
 
 \* a question id is not reused before its Finish was sent
 SendQuestion == /\ (Msg("send", "bootstrap") \/ Msg("send", "call")) /\ Consume
                 /\ qst[E.q] = "free"
                 /\ qst' = [qst EXCEPT ![E.q] = "open"] /\ qtag' = [qtag EXCEPT ![E.q] = E.tag]
+                \* a received call passed on to an import: at most once, and calls pipelined on one answer keep their wire order
+                /\ IF E.m = "call" /\ E.tgt = "imp" /\ E.tag \in Range(callseq)
+                   THEN /\ E.tag \notin Range(emb.fwd)
+                        /\ \A x \in emb.ptgt : \A y \in emb.ptgt :
+                              (x[1] = E.tag /\ y[2] = x[2] /\ y[1] \in Range(emb.fwd)) => Pos(callseq, y[1]) < Pos(callseq, E.tag)
+                        /\ emb' = [emb EXCEPT !.fwd = Append(@, E.tag)]
+                   ELSE emb' = emb
                 /\ Keep(<<ans, exp, qrel, imp, lh, started, callseq, appret, shut, caps, lres, pret, closed, aborted>>)
 SendFinish == /\ Msg("send", "finish") /\ Consume
               /\ qst[E.q] \in {"open", "returned"}
               \* a Finish sent before the Return (cancellation): the id stays in use until the Return arrives
               /\ qst' = [qst EXCEPT ![E.q] = IF qst[E.q] = "returned" THEN "free" ELSE "canceled"]
               /\ qrel' = [qrel EXCEPT ![E.q] = E.rel]
-              /\ Keep(<<ans, exp, qtag, imp, lh, started, callseq, appret, shut, caps, lres, pret, closed, aborted>>)
+              /\ Keep(<<ans, exp, qtag, imp, lh, started, callseq, appret, shut, caps, lres, pret, closed, aborted, emb>>)
 \* Release of an import: no local reference left, and exactly the number of descriptors received
 SendRelease == /\ Msg("send", "release") /\ Consume
                /\ E.n = imp[E.e] /\ E.n > 0
                /\ ~\E x \in lh : x[2] = E.e
                /\ imp' = [imp EXCEPT ![E.e] = 0]
-               /\ Keep(<<ans, exp, qst, qtag, qrel, lh, started, callseq, appret, shut, caps, lres, pret, closed, aborted>>)
+               /\ Keep(<<ans, exp, qst, qtag, qrel, lh, started, callseq, appret, shut, caps, lres, pret, closed, aborted, emb>>)
 SendAbort == /\ Msg("send", "abort") /\ Consume /\ aborted' = TRUE
-             /\ Keep(<<ans, exp, qst, qtag, qrel, imp, lh, started, callseq, appret, shut, caps, lres, pret, closed>>)
-SendOther == /\ Ev("msg") /\ E.dir = "send" /\ E.m \in {"disembargo", "unimplemented"} /\ Consume
-             /\ Keep(<<ans, exp, qst, qtag, qrel, imp, lh, started, callseq, appret, shut, caps, lres, pret, closed, aborted>>)
+             /\ Keep(<<ans, exp, qst, qtag, qrel, imp, lh, started, callseq, appret, shut, caps, lres, pret, closed, emb>>)
+\* Disembargo senderLoopback: the connection announces an embargo on a result it has pipelined on; the promised answer it names
+\* must still be addressable by the peer (Return received, Finish not yet sent)
+SendDisembargoSender ==
+  /\ Msg("send", "disembargo") /\ E.kind = "senderLoopback" /\ Consume
+  /\ E.tgt = "ans" /\ qst[E.on] = "returned"
+  /\ emb' = [emb EXCEPT !.out = @ \cup {<<E.n, qtag[E.on]>>}]
+  /\ Keep(<<ans, exp, qst, qtag, qrel, imp, lh, started, callseq, appret, shut, caps, lres, pret, closed, aborted>>)
+\* Disembargo receiverLoopback: the echo the peer asked for - with its id, addressed to the import the answer resolved to, and
+\* behind every call that was pipelined on that answer before the request
+SendDisembargoEcho ==
+  /\ Msg("send", "disembargo") /\ E.kind = "receiverLoopback" /\ Consume
+  /\ \E d \in emb.req : /\ d[1] = E.n
+                         /\ E.tgt = "imp" /\ ans[d[2]].st = "returned" /\ ans[d[2]].imp = E.e
+                         /\ d[3] \subseteq Range(emb.fwd)
+                         /\ emb' = [emb EXCEPT !.req = @ \ {d}]
+  /\ Keep(<<ans, exp, qst, qtag, qrel, imp, lh, started, callseq, appret, shut, caps, lres, pret, closed, aborted>>)
+SendOther == /\ Ev("msg") /\ E.dir = "send" /\ E.m \in {"unimplemented"} /\ Consume
+             /\ Keep(<<ans, exp, qst, qtag, qrel, imp, lh, started, callseq, appret, shut, caps, lres, pret, closed, aborted, emb>>)
 
 \* ---------------- application ----------------
 \* a method body starts: for a received call, at most once, and in wire order per capability
+LTags == { emb.lseq[i][2] : i \in 1..Len(emb.lseq) }
+Resolved(t) == \E r \in lres : r[1] = t
 AppStart == /\ Ev("app-start") /\ Consume
-            /\ E.tag \in Range(callseq)                                   \* a call that was received
+            /\ E.tag \in Range(callseq) \cup LTags                        \* a call that was received, or made locally on a pipeline
             /\ ~\E s \in Range(started) : s[2] = E.tag                      \* delivered at most once
             /\ E.cap \in caps
             \* every call that was received earlier and was delivered to the same capability started earlier:
             \* i.e. no later-received call of this capability has started yet
-            /\ LET pos(t) == CHOOSE i \in 1..Len(callseq) : callseq[i] = t IN
-               \A s \in Range(started) : s[1] = E.cap => pos(s[2]) < pos(E.tag)
+            /\ E.tag \in Range(callseq) =>
+                 \A s \in Range(started) : (s[1] = E.cap /\ s[2] \in Range(callseq)) => Pos(callseq, s[2]) < Pos(callseq, E.tag)
+            \* ordering across promise resolution: calls made on one pipeline are delivered in the order they were made
+            \* (whether they travelled through the peer or were delivered locally), and none under embargo is delivered
+            /\ E.tag \notin emb.held
+            /\ \A i, j \in 1..Len(emb.lseq) :
+                  (i < j /\ emb.lseq[j][2] = E.tag /\ emb.lseq[i][1] = emb.lseq[j][1]) =>
+                     ((\E s \in Range(started) : s[2] = emb.lseq[i][2]) \/ Resolved(emb.lseq[i][2]))
             /\ started' = Append(started, <<E.cap, E.tag>>)
-            /\ Keep(<<ans, exp, qst, qtag, qrel, imp, lh, callseq, appret, shut, caps, lres, pret, closed, aborted>>)
+            /\ Keep(<<ans, exp, qst, qtag, qrel, imp, lh, callseq, appret, shut, caps, lres, pret, closed, aborted, emb>>)
 AppReturn == /\ Ev("app-return") /\ Consume
-             /\ appret' = appret \cup {<<E.tag, E.kind, E.cap>>}
+             /\ appret' = appret \cup {<<E.tag, E.kind, E.cap, E.e>>}
              /\ caps' = IF E.cap # "" THEN caps \cup {E.cap} ELSE caps
              \* the new capability is held by the answer from now on
              /\ ans' = [i \in Ids |-> IF ans[i].st = "open" /\ ans[i].kind = "call" /\ ans[i].tag = E.tag /\ E.cap # ""
                                       THEN [ans[i] EXCEPT !.cap = E.cap] ELSE ans[i]]
-             /\ Keep(<<exp, qst, qtag, qrel, imp, lh, started, callseq, shut, lres, pret, closed, aborted>>)
+             /\ Keep(<<exp, qst, qtag, qrel, imp, lh, started, callseq, shut, lres, pret, closed, aborted, emb>>)
 \* Shutdown of an instrumented capability: at most once and only when nothing holds it
 Shutdown == /\ Ev("shutdown") /\ Consume
             /\ E.cap \in caps /\ E.cap \notin Range(shut)
             /\ Holders(E.cap) = {}
             /\ shut' = Append(shut, E.cap)
-            /\ Keep(<<ans, exp, qst, qtag, qrel, imp, lh, started, callseq, appret, caps, lres, pret, closed, aborted>>)
+            /\ Keep(<<ans, exp, qst, qtag, qrel, imp, lh, started, callseq, appret, caps, lres, pret, closed, aborted, emb>>)
 \* local references to imports
 \* the application obtained a reference to import e (bootstrap result, call result, call parameter) / dropped it
 LHandle == /\ Ev("l-handle") /\ Consume
            /\ lh' = IF E.e >= 0 THEN lh \cup {<<E.h, E.e>>} ELSE lh
-           /\ Keep(<<ans, exp, qst, qtag, qrel, imp, started, callseq, appret, shut, caps, lres, pret, closed, aborted>>)
+           /\ Keep(<<ans, exp, qst, qtag, qrel, imp, started, callseq, appret, shut, caps, lres, pret, closed, aborted, emb>>)
 LRelease == /\ Ev("l-release") /\ Consume
             /\ lh' = { x \in lh : x[1] # E.h }
-            /\ Keep(<<ans, exp, qst, qtag, qrel, imp, started, callseq, appret, shut, caps, lres, pret, closed, aborted>>)
+            /\ Keep(<<ans, exp, qst, qtag, qrel, imp, started, callseq, appret, shut, caps, lres, pret, closed, aborted, emb>>)
+\* the application makes a call on a pipeline (field 0 of the result of local call E.on); if that stream is under embargo the
+\* call is held until the echo arrives
+LPCall == /\ Ev("l-pcall") /\ Consume
+          /\ emb' = [emb EXCEPT !.lseq = Append(@, <<E.on, E.tag>>),
+                                 !.held = IF \E x \in emb.out : x[2] = E.on THEN @ \cup {E.tag} ELSE @]
+          /\ Keep(<<ans, exp, qst, qtag, qrel, imp, lh, started, callseq, appret, shut, caps, lres, pret, closed, aborted>>)
 LocalResult == /\ Ev("l-result") /\ Consume
+               /\ (E.tag \in LTags /\ E.kind = "ok") => E.n = E.tag        \* every method body answers with its call's tag
                /\ ~\E r \in lres : r[1] = E.tag                             \* resolves at most once
                \* with the peer's result, if the peer answered
                /\ (\E q \in Ids : qtag[q] = E.tag /\ \E p \in pret : p[1] = q /\ p[3] = E.tag) =>
                      (\E p \in pret : p[3] = E.tag /\ ((p[2] = "results" /\ E.kind = "ok" /\ E.n = E.tag) \/ (p[2] = "exception" /\ E.kind = "err")))
                /\ lres' = lres \cup {<<E.tag, E.kind>>}
-               /\ Keep(<<ans, exp, qst, qtag, qrel, imp, lh, started, callseq, appret, shut, caps, pret, closed, aborted>>)
+               /\ Keep(<<ans, exp, qst, qtag, qrel, imp, lh, started, callseq, appret, shut, caps, pret, closed, aborted, emb>>)
 \* Close was invoked: from now on the connection drops everything it holds (the bootstrap capability, result tables, exports)
 CloseInvoked == /\ Ev("close") /\ Consume /\ closed' = TRUE
                 /\ ans' = [i \in Ids |-> [ans[i] EXCEPT !.fin = TRUE, !.cap = IF ans[i].st = "open" THEN "" ELSE ans[i].cap]]
                 /\ exp' = [i \in Ids |-> [exp[i] EXCEPT !.wire = 0]]
-                /\ Keep(<<qst, qtag, qrel, imp, lh, started, callseq, appret, shut, caps, lres, pret, aborted>>)
+                /\ Keep(<<qst, qtag, qrel, imp, lh, started, callseq, appret, shut, caps, lres, pret, aborted, emb>>)
 Passive == /\ (Ev("l-bootstrap") \/ Ev("l-call") \/ Ev("app-cancelled") \/ Ev("reported") \/ Ev("fault")
-               \/ Ev("transport-closed") \/ Ev("done") \/ Ev("end"))
+               \/ Ev("transport-closed") \/ Ev("done") \/ Ev("end") \/ Ev("peer-deliver") \/ Ev("peer-echo") \/ Ev("view"))
            /\ Consume
-           /\ Keep(<<ans, exp, qst, qtag, qrel, imp, lh, started, callseq, appret, shut, caps, lres, pret, closed, aborted>>)
+           /\ Keep(<<ans, exp, qst, qtag, qrel, imp, lh, started, callseq, appret, shut, caps, lres, pret, closed, aborted, emb>>)
 
 \* quiescent point: every returned body has its Return on the wire, every answered question its Finish,
 \* every capability nobody holds has been shut down
@@ -226,15 +300,18 @@ Quiesce == /\ Ev("quiesce") /\ Consume
            /\ (closed \/ aborted \/ \A i \in Ids : ans[i].st = "open" => ans[i].kind = "call")       \* bootstraps are answered at once
            /\ (closed \/ aborted \/ \A i \in Ids : qst[i] # "returned")
            /\ \A k \in caps : Holders(k) = {} => k \in Range(shut)
+           \* embargoes: every request was echoed, every announced embargo is over, every pipelined local call has resolved
+           /\ (closed \/ aborted \/ (emb.req = {} /\ emb.out = {} /\ \A t \in LTags : Resolved(t)))
            /\ (closed \/ aborted \/ \A i \in Ids : (imp[i] > 0 /\ ~\E x \in lh : x[2] = i) => FALSE)     \* an import nobody references has been released (moot once the connection is gone)
-           /\ Keep(<<ans, exp, qst, qtag, qrel, imp, lh, started, callseq, appret, shut, caps, lres, pret, closed, aborted>>)
+           /\ Keep(<<ans, exp, qst, qtag, qrel, imp, lh, started, callseq, appret, shut, caps, lres, pret, closed, aborted, emb>>)
 \* after Close returned everything the connection held has been released: every capability shut down exactly once
 CloseReturned == /\ Ev("close-returned") /\ Consume
                  /\ \A k \in caps : Count(shut, k) = 1
-                 /\ Keep(<<ans, exp, qst, qtag, qrel, imp, lh, started, callseq, appret, shut, caps, lres, pret, closed, aborted>>)
+                 /\ Keep(<<ans, exp, qst, qtag, qrel, imp, lh, started, callseq, appret, shut, caps, lres, pret, closed, aborted, emb>>)
 
-Next == Reset \/ RecvBootstrap \/ RecvCall \/ RecvFinish \/ RecvRelease \/ RecvReturn \/ RecvOther
-        \/ SendReturn \/ SendReturnNoBody \/ SendQuestion \/ SendFinish \/ SendRelease \/ SendAbort \/ SendOther
+Next == Reset \/ RecvBootstrap \/ RecvCall \/ RecvFinish \/ RecvRelease \/ RecvReturn \/ RecvDisembargo \/ RecvOther
+        \/ SendReturn \/ SendReturnNoBody \/ SendReturnForwarded \/ SendQuestion \/ SendFinish \/ SendRelease \/ SendAbort
+        \/ SendDisembargoSender \/ SendDisembargoEcho \/ SendOther \/ LPCall
         \/ AppStart \/ AppReturn \/ Shutdown \/ CloseInvoked \/ LHandle \/ LRelease \/ LocalResult \/ Passive \/ Quiesce \/ CloseReturned
 Spec == Init /\ [][Next]_vars
 
